@@ -301,7 +301,16 @@ def run_suite(pid, sname, spec, tier, seed, rundir):
     cmd = [binary, "-suite", hs, "-seed", str(seed), "-tier", tier,
            "-cases", cases, "-impl", impl, "-stats", stats]
     corpus = os.path.join(VERIF, "corpus", sname + ".cases")
-    rc, out = sh(["bash", "-c", "ulimit -v 16000000; exec \"$@\"", "x"] + cmd, env=GOENV, timeout=spec.get("timeout", 7200))
+    henv = GOENV
+    ulim = "ulimit -v 16000000; "
+    if spec.get("race"):
+        henv = dict(GOENV, GORACE="halt_on_error=1 exitcode=66", VERIF_SYNC="1")
+        ulim = ""     # the race detector reserves a huge virtual address range
+    rc, out = sh(["bash", "-c", ulim + "exec \"$@\"", "x"] + cmd, env=henv, timeout=spec.get("timeout", 7200))
+    raced = None
+    if spec.get("race") and rc == 66:
+        raced = out[out.find("WARNING: DATA RACE"):][:3000] if "WARNING: DATA RACE" in out else out[-3000:]
+        rc = 0
     if rc != 0:
         mismatches.append(dict(kind="broken", component="harness-run:" + sname, payload="",
                                detail="harness exited %d: %s" % (rc, out[-500:]), suite=sname))
@@ -313,6 +322,16 @@ def run_suite(pid, sname, spec, tier, seed, rundir):
     t1 = time.time()
     ires = read_results(impl)
     mres = read_results(model)
+    if raced is not None:
+        # the harness died on the case it had announced last: that case raced
+        last = None
+        with open(cases, "r", errors="replace") as f:
+            for line in f:
+                parts = line.rstrip("\n").split("\t", 2)
+                if len(parts) == 3:
+                    last = parts[1]
+        if last is not None and last not in ires:
+            ires[last] = "RACE " + raced.replace("\n", " / ")
     n = 0
     nontrivial = set()
     samples = []
@@ -350,8 +369,11 @@ def run_suite(pid, sname, spec, tier, seed, rundir):
 
 
 def harness_replay(suite, payload, binary=None):
-    rc, out = sh(["bash", "-c", "ulimit -v 16000000; exec \"$@\"", "x", binary or os.path.join(BUILD, "harness"), "-suite", suite, "-replay", payload],
-                 env=GOENV, timeout=600)
+    race = binary is not None and binary.endswith("harness-race")
+    rc, out = sh(["bash", "-c", ("" if race else "ulimit -v 16000000; ") + "exec \"$@\"", "x", binary or os.path.join(BUILD, "harness"), "-suite", suite, "-replay", payload],
+                 env=dict(GOENV, GORACE="halt_on_error=1 exitcode=66") if race else GOENV, timeout=600)
+    if race and "WARNING: DATA RACE" in out:
+        return "RACE " + out[out.find("WARNING: DATA RACE"):][:3000].replace("\n", " / ")
     return out.strip()
 
 
@@ -513,3 +535,13 @@ def autogen_replay_binary(payload):
     fam = json.loads(bytes.fromhex(head.split(":", 1)[1]).decode())
     target, err = build_autogen_harness([fam], name="autogen-replay")
     return None if err else target
+
+
+def build_race_harness():
+    """The ordinary harness built with the race detector (cgo is needed for -race)."""
+    target = os.path.join(BUILD, "harness-race")
+    hdir = os.path.join(VERIF, "harness")
+    rc, out = sh(["go", "build", "-race", "-tags", "verif", "-o", target, "."], cwd=hdir, env=dict(GOENV, CGO_ENABLED="1"), timeout=1800)
+    if rc != 0:
+        return target, "the race-detector build of the harness fails: " + out
+    return target, ""
